@@ -42,6 +42,8 @@ def mime_decisions(F, fn):
                     if vals and all(x[0] == "const" and isinstance(x[1], str) and x[1].startswith(".") for x in vals):
                         const_arrays.append((s["span"]["line"], [x[1] for x in vals]))
     decisions = []
+    other_tests = []
+    mime_decisions.other_tests = other_tests
     for sb in cfg.rpo():
         st = cfg.blocks[sb]["term"]
         if st["k"] != "switch" or st.get("discr_ty") != "bool":
@@ -57,6 +59,8 @@ def mime_decisions(F, fn):
         if v[0] == "call" and (v[1] or "").endswith("impl str>::ends_with") and len(v[2]) == 2 and v[2][1][0] == "const":
             ty = returned_const(true_t)
             decisions.append(("ends_with", [v[2][1][1]], ty, st["span"]["line"]))
+        elif v[0] == "call" and v[1] and re.search(r"impl str>::(starts_with|contains|find|eq_ignore_ascii_case)$|PartialEq.*::(eq|ne)$", v[1]) and len(v[2]) == 2 and v[2][1][0] == "const" and isinstance(v[2][1][1], str):
+            other_tests.append((v[1].split("::")[-1], v[2][1][1], returned_const(true_t), st["span"]["line"]))
         elif v[0] == "place" and not v[1][1]:
             # a multi-def bool local `is_x_suffix`: false, or contains(list, suffix) - collect the list constants
             l = v[1][0]
@@ -141,6 +145,20 @@ def run(ctx):
                 r1.instance({"dispatcher": fn.def_, "controller": c, "process_dominated_by_own_matcher": ok}, ok)
                 if not ok:
                     r1.violate("C02|R1|%s|%s|pairing" % (fn.def_, c), "%s calls %s::process without the true edge of %s's own matcher dominating the call" % (fn.def_, c, c), t["span"]["file"], t["span"]["line"], fn.def_)
+        # every matcher's true edge reaches its own process: a controller that matches and is then not asked leaves the default (501) response
+        proc_blocks = {}
+        for bid, t in fn.calls():
+            c_name = callee_name(t) or ""
+            if re.search(r"::process(_request)?$", c_name) and "Controller" in c_name:
+                proc_blocks.setdefault(ctrl_of(c_name)[0], set()).add(bid)
+        rets = set(cfg.return_blocks())
+        for c in order:
+            for (sb, tb) in match_edges.get(c, []):
+                reach = cfg.reachable_from(tb, removed_nodes=proc_blocks.get(c, set())) if tb not in proc_blocks.get(c, set()) else set()
+                ok = not (reach & rets)
+                r1.instance({"dispatcher": fn.def_, "controller": c, "matched_request_reaches_its_process": ok}, ok)
+                if not ok:
+                    r1.violate("C02|R1|%s|%s|matched-but-not-processed" % (fn.def_, c), "%s can return after %s's matcher answered true without calling %s::process: the request gets the default response" % (fn.def_, c, c), fn.file, cfg.blocks[sb]["term"]["span"]["line"], fn.def_)
         # catch-all last
         for i, c in enumerate(order):
             mname = [n for n in F.fns if re.search(r"%s( as controller::Controller>)?::is_matching(_request)?$" % re.escape(c), n) and (("as controller::Controller" in n) == ("Application" in fn.def_ or "execute" in fn.def_))]
@@ -152,6 +170,78 @@ def run(ctx):
                     r1.instance({"dispatcher": fn.def_, "catch_all": c, "position": i + 1, "of": len(order)}, ok)
                 if not ok:
                     r1.violate("C02|R1|%s|%s|catch-all-not-last" % (fn.def_, c), "%s tests the catch-all controller %s at position %d of %d: every later controller is unreachable" % (fn.def_, c, i + 1, len(order)), fn.file, fn.span["line"], fn.def_)
+    # ---- R7: the controllers tested BEFORE the static-resource controller answer for fixed paths only; the chain ends in a catch-all
+    r5 = chk.rule("R7-fixed-path-controllers", "a controller that is tested before the static-resource controller matches only where an equality of the request path with a constant has succeeded (A13): it cannot answer for a file of the served directory; the last controller of the chain matches everything (a request nobody serves is answered 404 by it)", floor=12)
+    from ..implies import true_implies_key_equality
+    from ..taint import local_deps
+    for fn in dispatchers:
+        order = orders.get(fn.def_, [])
+        prod = ("Application" in fn.def_ or "execute" in fn.def_)
+        def matcher_of(c):
+            for n in F.fns:
+                if re.search(r"%s( as controller::Controller>)?::is_matching(_request)?$" % re.escape(c), n) and (("as controller::Controller" in n) == prod):
+                    return F.fns[n]
+            return None
+        static_i = next((i for i, c in enumerate(order) if "StaticResource" in c), None)
+        if static_i is None:
+            r5.violate("C02|R7|%s|anchor-missing" % fn.def_, "%s does not test the static-resource controller" % fn.def_, fn.file, fn.span["line"], fn.def_)
+            continue
+        for c in order[:static_i]:
+            mfn = matcher_of(c)
+            if mfn is None:
+                continue
+            mi = ctx.inl(mfn)
+            mdu = du_of(mi)
+            ld = local_deps(mi)
+            def is_key(v):
+                # one side a string constant, the other computed from the request (parameter 1)
+                consts = [a for a in v[2] if a[0] == "const" and isinstance(a[1], str)]
+                others = [a for a in v[2] if not (a[0] == "const")]
+                if len(consts) != 1 or len(others) != 1:
+                    return False
+                # the request side is the target: the request_uri field, or the path / uri a Request method computes from it
+                def target_like(o, depth=0):
+                    if depth > 8:
+                        return False
+                    if o[0] in ("ref", "place"):
+                        fields = [e[2] for e in o[1][1] if isinstance(e, tuple) and e[0] == "f" and len(e) > 2]
+                        if o[1][0] == 1:
+                            return "request_uri" in fields
+                        w = mdu.val_place((o[1][0], ()))
+                        return w != o and w[0] != "place" and target_like(w, depth + 1)
+                    if o[0] == "call" and o[2]:
+                        nm = o[1] or ""
+                        if re.search(r"request::Request::get_(uri|path|uri_path)", nm) and any(x[0] in ("ref", "place") and x[1][0] == 1 for x in o[2]):
+                            return True
+                        return target_like(o[2][0], depth + 1)
+                    return False
+                return target_like(others[0])
+            ok = true_implies_key_equality(mi, is_key)
+            r5.instance({"dispatcher": fn.def_, "controller": c, "matches_only_its_constant_path": ok}, ok)
+            if not ok:
+                r5.violate("C02|R7|%s|%s|not-a-fixed-path" % (fn.def_, c), "%s is tested before the static-resource controller and can match without an equality of the request path with a constant having succeeded: it answers for files of the served directory (and for paths that must be 404 / refused)" % c, mfn.file, mfn.span["line"], mfn.def_)
+        if order:
+            last = matcher_of(order[-1])
+            ok = last is not None and _always_true(last)
+            r5.instance({"dispatcher": fn.def_, "last_controller": order[-1], "matches_everything": ok}, ok)
+            if not ok:
+                r5.violate("C02|R7|%s|no-catch-all" % fn.def_, "the last controller of %s (%s) does not match every request: a request that no controller serves is not answered 404" % (fn.def_, order[-1]), fn.file, fn.span["line"], fn.def_)
+    # ---- R8: the containment check refuses only paths that climb out (the C02 side of C01.R5)
+    r8 = chk.rule("R8-containment-check-is-exact", "the containment predicate's depth is exactly the real depth (name +1, '.' and '' 0, '..' -1) and '..' is answered 'outside' only at depth 0: a target such as /sub/../file that stays inside the served directory is looked up, not refused", floor=5)
+    from .. import segments
+    from .c01 import find_predicates
+    for pfn, _seps in find_predicates(F):
+        pres = segments.precision_verdicts(pfn)
+        if pres is None:
+            r8.floor = 0
+            r8.note("%s is not a segment walk with a depth: not decided by this rule" % pfn.def_)
+            continue
+        seen_k = set()
+        for cls, ok, why, line in pres:
+            r8.instance({"predicate": pfn.def_, "segment_class": cls, "path_outcome": why}, ok)
+            if not ok and cls not in seen_k:
+                seen_k.add(cls)
+                r8.violate("C02|R8|%s|%s" % (pfn.def_, cls), "%s, segment %r: %s" % (pfn.def_, cls, why), pfn.file, line, pfn.def_)
     if len(orders) == 2:
         a, b = list(orders.values())
         ok = a == b
@@ -203,6 +293,14 @@ def run(ctx):
             r3.instance({"suffix": suf, "type": ty, "test": kind}, ok)
             if not ok:
                 r3.violate("C02|R3|%s" % suf, "media type decision for %r (%s): %s" % (suf, ty, why), mfn.file, line, mfn.def_)
+
+        # every decision is a SUFFIX test: a starts_with / contains / == on the name decides by something else than the extension
+        # (a test whose outcome is the default type anyway changes no answer and is left alone)
+        for how, const_, ty, line in getattr(mime_decisions, "other_tests", []):
+            if ty is not None and ty == default:
+                continue
+            r3.instance({"suffix": const_, "test": how, "type": ty}, False)
+            r3.violate("C02|R3|%s|not-a-suffix-test" % const_, "detect_mime_type decides on %r with %s instead of ends_with: the media type (%s) no longer follows the extension" % (const_, how, ty), mfn.file, line, mfn.def_)
 
     # ---- R4 no directory listing
     r4 = chk.rule("R4-no-directory-listing", "fs::read_dir / ReadDir is unreachable from the connection roots", floor=0)
